@@ -1,4 +1,6 @@
 """C20 - connections are supervised and the callbacks are exact."""
+from threading import Thread as _RealThread  # bound before the environment patches threading
+
 from symex.run import Harness
 
 from . import common as C
@@ -108,7 +110,8 @@ def events():
     attempt follows every loss that comes with an error."""
     def fn(w):
         kind = w.pick(sorted(protocol_classes()), "protocol")
-        how = w.pick(["made", "lost(None)", "lost(exc)", "made+lost(exc)+made"], "events")
+        how = w.pick(["made", "lost(None)", "lost(exc)", "made+lost(exc)+made", "peer-close"],
+                     "events")
         env = C.make_env(w)
         with env.installed():
             made, lost, reconnects = [], [], []
@@ -127,9 +130,20 @@ def events():
                     w.call(proto.connection_made, conn)
                     exp = (1, 0, 0)
                 elif how == "lost(None)":
+                    # the user asked for it: disconnect() released the protocol first
                     proto.transport = conn
                     w.call(proto.connection_lost, None)
                     exp = (0, 1, 0)
+                elif how == "peer-close":
+                    # asyncio delivers an orderly close by the peer as connection_lost(None); the
+                    # threaded readers never do (they report it through the watchdog / an error)
+                    if kind == "threaded":
+                        w.goal(how)
+                        return
+                    proto.transport = conn
+                    gw.tasks.transport.protocol = proto  # still attached: not user-requested
+                    w.call(proto.connection_lost, None)
+                    exp = (0, 1, 1)
                 elif how == "lost(exc)":
                     proto.transport = conn
                     w.call(proto.connection_lost, err)
@@ -144,11 +158,11 @@ def events():
             w.check(len(made) == exp[0], f"{kind}: on_conn_made called {len(made)}x for {how}")
             w.check(len(lost) == exp[1], f"{kind}: on_conn_lost called {len(lost)}x for {how}")
             w.check(len(reconnects) == exp[2],
-                    f"{kind}: {len(reconnects)} reconnect attempt(s) for {how}")
+                    f"{kind}: {len(reconnects)} reconnect attempt(s) for {how}, expected {exp[2]}")
             for args in lost:
-                w.check(args[0] is gw and (args[1] is err or how == "lost(None)"),
+                w.check(args[0] is gw and (args[1] is err or how in ("lost(None)", "peer-close")),
                         f"{kind}: on_conn_lost arguments")
-            if "lost" in how and not how.endswith("made"):
+            if ("lost" in how or how == "peer-close") and not how.endswith("made"):
                 w.check(proto.transport is None, f"{kind}: connection kept after the loss")
             w.goal(how)
     return fn
@@ -251,6 +265,223 @@ def connect_loops():
     return fn
 
 
+def tcp_reader():
+    """(e) TCPTransport.run with a scripted socket: exactly one connection_made, then exactly one
+    connection_lost carrying the first error (None after an orderly stop)."""
+    def fn(w):
+        from mysensors import gateway_tcp
+        from symex.core import prog
+        env = C.make_env(w)
+        with env.installed():
+            g = C.make_gateway(w, "2.2")
+            gw = g.gw
+            proto = gw.tasks.transport.protocol
+            made, lost = [], []
+            gw.on_conn_made = C.Recorder2(made)
+            gw.on_conn_lost = C.Recorder2(lost)
+            reconnects = []
+            proto.conn_lost_callback = C.Recorder0(reconnects)
+            script = {"iter": 0, "first_error": None, "events": []}
+            steps = 3
+
+            class Sock:
+                __symex_native__ = True
+
+                def setblocking(self, flag):
+                    pass
+
+                def recv(self, n):
+                    what = w.pick(["data", "eof", "error"], f"recv{script['iter']}")
+                    script["events"].append(f"recv:{what}")
+                    if what == "error":
+                        exc = prog(OSError("recv failed"))
+                        script["first_error"] = script["first_error"] or exc
+                        raise exc
+                    return b"0;255;3;0;2;2.0\n" if what == "data" else b""
+
+                def sendall(self, data):
+                    pass
+
+                def close(self):
+                    pass
+            sock = Sock()
+
+            def select_stub(a, k):
+                what = w.pick(["readable", "idle", "exceptional", "raises"],
+                              f"select{script['iter']}")
+                script["events"].append(f"select:{what}")
+                if what == "raises":
+                    exc = prog(OSError("select failed"))
+                    script["first_error"] = script["first_error"] or exc
+                    raise exc
+                if what == "exceptional":
+                    return ([], [], [sock])
+                return ([sock] if what == "readable" else [], [sock], [])
+            import select as _select
+            import time as _time
+            env.add(_select.select, select_stub, "select.select")
+
+            def check_conn():
+                what = w.pick(["ok", "watchdog"], f"check{script['iter']}")
+                script["events"].append(f"check:{what}")
+                if what == "watchdog":
+                    exc = prog(OSError("no response"))
+                    script["first_error"] = script["first_error"] or exc
+                    raise exc
+            check_conn.__symex_native__ = True
+            holder = {}
+
+            def sleeper(a, k):
+                script["iter"] += 1
+                if script["iter"] >= steps:
+                    holder["t"].alive = False  # stop() from the user
+                return None
+            env.add(_time.sleep, sleeper, "time.sleep")
+            with env.installed():
+                factory = C.Factory(proto)
+                t = w.new(gateway_tcp.TCPTransport, sock, factory, check_conn)
+                holder["t"] = t
+                w.info = {"script": script["events"]}
+                try:
+                    w.call(t.run)
+                except Exception as exc:
+                    w.escaped(exc, "TCPTransport.run raised")
+            w.check(len(made) == 1, f"on_conn_made called {len(made)}x for one connection")
+            w.check(len(lost) == 1, f"on_conn_lost called {len(lost)}x for one connection")
+            err = lost[0][1] if lost else None
+            exceptional = any(e == "select:exceptional" for e in script["events"])
+            if script["first_error"] is not None:
+                w.check(err is script["first_error"], "connection_lost did not carry the first error")
+            elif not exceptional:
+                w.check(err is None, "connection_lost carried an error after an orderly stop")
+            w.check(len(reconnects) == (1 if err is not None else 0),
+                    "reconnect attempts do not match the loss (error => one attempt)")
+            w.check(t.protocol is None and t.alive is False, "reader not shut down after the loss")
+            w.goal("lost-with-error" if err is not None else "stopped")
+    return fn
+
+
+def async_connect_loop():
+    """(c') asyncio connect loops: retry every reconnect_timeout until a connection is made; a
+    cancellation ends the loop."""
+    def fn(w):
+        import asyncio
+        from mysensors import gateway_tcp
+        from symex.core import prog
+        from symex.env import Done
+        nfail = w.choose(3, "failures")
+        kind = w.pick(["oserror", "timeout"], "failure_kind") if nfail else "none"
+        cancel = w.flag("cancelled_while_waiting") if nfail else False
+        env = C.make_env(w)
+        with env.installed():
+            R = w.fresh_real("R", 0)
+            w.assume_fast(w.lt(0, R))
+            t0 = w.fresh_real("t0", 0)
+            env.frozen = t0
+            gw = tcp_gateway(w, "async", R)
+            tr = gw.tasks.transport
+            attempts = []
+            t1 = w.fresh_real("t_connected", 0)
+            w.assume_fast(w.lt(w.add(t0, w.mul(3, R)), t1))  # the link comes up much later
+            env.frozen = t1
+
+            def create_connection(factory, args, kwargs):
+                attempts.append(args)
+                if len(attempts) <= nfail:
+                    exc = OSError("refused") if kind == "oserror" else asyncio.TimeoutError()
+                    return Done(exc=prog(exc))
+                proto = factory()
+                conn = C.FakeConn()
+                w.call(proto.connection_made, conn)
+                return Done((conn, proto))
+            env.create_connection = create_connection
+            if cancel:
+                env.cancel_sleep_at = nfail - 1
+            w.info = {"failures": nfail, "kind": kind, "cancelled": cancel}
+            ended = "connected"
+            try:
+                w.run_coro(w.call(tr.connect))
+            except asyncio.CancelledError:
+                ended = "cancelled"
+            except Exception as exc:
+                w.escaped(exc, "async_connect raised")
+            w.check(ended == ("cancelled" if cancel else "connected"),
+                    f"connect loop ended as {ended}")
+            for sl in env.async_sleeps:
+                w.check(w.eq(sl, R), "retry delay is not reconnect_timeout")
+            want = nfail if cancel else nfail + 1
+            w.check(len(attempts) == want, f"{len(attempts)} connect attempts, expected {want}")
+            if not cancel:
+                w.check(len(env.loop.handles) == 1, "watchdog not armed after connecting")
+                w.check(w.and_(w.eq(gw.tcp_check_timer, t1), w.eq(gw.tcp_disconnect_timer, t1)),
+                        "watchdog timers not restarted when the connection was established")
+                w.check(tr.protocol.transport is not None, "fresh link dropped right after "
+                                                           "connection_made")
+            w.goal(ended)
+    return fn
+
+
+def tcp_connect_success():
+    """(c'') threaded TCP connect: after failed dials the link comes up; both watchdog timers
+    restart at that moment and the reader is started."""
+    def fn(w):
+        import socket
+        import threading
+        from mysensors import gateway_tcp
+        from symex.core import prog
+        nfail = w.choose(3, "failures")
+        env = C.make_env(w)
+        with env.installed():
+            R = w.fresh_real("R", 0)
+            w.assume_fast(w.lt(0, R))
+            t0 = w.fresh_real("t0", 0)
+            env.frozen = t0
+            gw = tcp_gateway(w, "sync", R)
+            tr = gw.tasks.transport
+            attempts, started = [], []
+            t1 = w.fresh_real("t_connected", 0)
+            w.assume_fast(w.lt(w.add(t0, w.mul(3, R)), t1))
+
+            class Sock:
+                __symex_native__ = True
+
+                def setblocking(self, flag):
+                    pass
+
+            def dial(a, k):
+                attempts.append(a)
+                if len(attempts) <= nfail:
+                    raise prog(OSError("refused"))
+                env.frozen = t1
+                return Sock()
+            env.add(socket.create_connection, dial, "socket.create_connection")
+            env.add(_RealThread.start, lambda a, k: started.append(a[0]),
+                    "mysensors.gateway_tcp.TCPTransport.start")
+            env.add(gateway_tcp.serial.threaded.ReaderThread.connect, lambda a, k: None,
+                    "mysensors.gateway_tcp.TCPTransport.connect")
+            with env.installed():
+                w.info = {"failures": nfail}
+                try:
+                    w.call(gateway_tcp.sync_connect, tr)
+                except Exception as exc:
+                    w.escaped(exc, "sync_connect raised")
+            w.check(len(attempts) == nfail + 1, "wrong number of connect attempts")
+            w.check(len(started) == 1, "reader thread not started exactly once")
+            for sl in env.sleeps:
+                w.check(w.eq(sl, R), "retry delay is not reconnect_timeout")
+            w.check(w.and_(w.eq(gw.tcp_check_timer, t1), w.eq(gw.tcp_disconnect_timer, t1)),
+                    "watchdog timers not restarted when the connection was established")
+            # the first watchdog poll on the fresh link must not drop it
+            env.frozen = w.add(t1, w.fresh_real("dt", 0))
+            w.assume_fast(w.le(w.sub(env.frozen, t1), R))
+            try:
+                w.call(gw.check_connection)
+            except OSError:
+                w.fail("fresh link dropped by the first watchdog poll")
+            w.goal("connected")
+    return fn
+
+
 def build(tier):
     hs = [
         Harness("watchdog-R-2eps", watchdog("R-2e"),
@@ -263,13 +494,25 @@ def build(tier):
                 {"polls": K, "latency_bound": "R (the statement as written)"},
                 goals=["alive", "dropped"], doc="answered within R => never dropped"),
         Harness("events", events(), {"protocols": sorted(protocol_classes())},
-                goals=["made", "lost(None)", "lost(exc)", "made+lost(exc)+made"],
+                goals=["made", "lost(None)", "lost(exc)", "made+lost(exc)+made", "peer-close"],
                 doc="callbacks exactly once per connection event; reconnect on error"),
         Harness("stop-quiesces", stop_quiesces(), {"flavours": ["sync", "async"]},
                 goals=["none", "lost(None)", "lost(exc)"],
                 doc="after stop(): nothing written, protocol released"),
         Harness("connect-loops", connect_loops(), {"failures": "0..3", "loops": "threaded serial/tcp"},
                 goals=["looped"], doc="retry every reconnect_timeout; stop when disconnected"),
+        Harness("tcp-connect-success", tcp_connect_success(), {"failures": "0..2"},
+                goals=["connected"],
+                doc="sync_connect (TCP): link up after failures; timers restarted; reader started"),
+        Harness("async-connect-loop", async_connect_loop(),
+                {"failures": "0..2 (OSError | TimeoutError)", "cancel": "while waiting"},
+                goals=["connected", "cancelled"],
+                doc="async_connect (TCP): retries, delay, cancellation, watchdog armed"),
+        Harness("tcp-reader", tcp_reader(),
+                {"iterations": 3, "select": ["readable", "idle", "exceptional", "raises"],
+                 "recv": ["data", "eof", "error"], "watchdog": ["ok", "raises"]},
+                goals=["lost-with-error", "stopped"],
+                doc="TCPTransport.run with a scripted socket: one made, one lost(first error)"),
     ]
     return {
         "harnesses": hs,
@@ -281,6 +524,6 @@ def build(tier):
                         "device factories / sockets are scripted fakes"],
         "outside": ["pyserial ReaderThread internals, serial_asyncio, the real asyncio loop, real "
                     "sockets", "exactly-once across truly concurrent threads (C16)",
-                    "asyncio connect loops and TCPTransport.run (not encoded in this build)"],
+                    "the asyncio serial connect loop (serial_asyncio)"],
         "stubs": ["time.time -> symbolic clock", "time.sleep recorded", "asyncio loop model"],
     }
